@@ -269,6 +269,8 @@ func ext۰reflect۰Value۰Type(fr *frame, args []value) value {
 func ext۰reflect۰Value۰Uint(fr *frame, args []value) value {
 	// Signature: func (reflect.Value) uint64
 	switch v := rV2V(args[0]).(type) {
+	case sv:
+		return fr.i.symConvInt(fr, v, types.Uint64)
 	case uint:
 		return uint64(v)
 	case uint8:
@@ -444,6 +446,8 @@ func ext۰reflect۰Value۰Interface(fr *frame, args []value) value {
 func ext۰reflect۰Value۰Int(fr *frame, args []value) value {
 	// Signature: func (reflect.Value) int64
 	switch x := rV2V(args[0]).(type) {
+	case sv:
+		return fr.i.symConvInt(fr, x, types.Int64)
 	case int:
 		return int64(x)
 	case int8:
